@@ -68,6 +68,24 @@ def digest(o):
     return hashlib.blake2b(jdump(o).encode(), digest_size=8).digest()
 
 
+class StopTask(Exception):
+    pass
+
+
+_KNOWN = None
+
+
+def _known_keys():
+    global _KNOWN
+    if _KNOWN is None:
+        try:
+            with open(os.path.join(VERIF, 'known_findings.json')) as f:
+                _KNOWN = {x['key'] for x in json.load(f).get('findings', [])}
+        except Exception:
+            _KNOWN = set()
+    return _KNOWN
+
+
 class Acc:
     """Mergeable coverage accumulator; every number in the evidence comes from here."""
     MAX_PER_KEY = 3
@@ -86,6 +104,8 @@ class Acc:
         self.classes = collections.Counter()
         self.caps = []
         self.errors = []          # machinery errors (never a silent pass)
+        self.unknown_viol = 0
+        self.budget = None        # set in worker tasks: stop a task after this many non-known violations
 
     # -- recording -----------------------------------------------------
     def case(self, case, nontrivial=True, outcome=None, traces=1):
@@ -104,6 +124,15 @@ class Acc:
 
     def violation(self, key, case, msg):
         self.viol_count += 1
+        if key not in _known_keys():
+            self.unknown_viol += 1
+            if self.budget is not None and self.unknown_viol > self.budget:
+                # the property is already decided (violated); do not spend the time budget re-finding it
+                self._record(key, case, msg)
+                raise StopTask(f'task stopped after {self.unknown_viol} violations')
+        self._record(key, case, msg)
+
+    def _record(self, key, case, msg):
         lst = self.viol.get(key)
         if lst is None:
             if len(self.viol) >= self.MAX_KEYS:
@@ -244,18 +273,47 @@ _WORKER_MODS = {}
 
 def _worker_init():
     os.environ.setdefault('OMP_NUM_THREADS', '1')
+    try:
+        import resource
+        lim = int(os.environ.get('VERIF_AS_LIMIT_GB', '2')) * 2 ** 30
+        resource.setrlimit(resource.RLIMIT_AS, (lim, lim))    # a run-away allocation becomes a MemoryError, not a hang
+    except Exception:
+        pass
     setup_lentil()
+
+
+class CaseTimeout(Exception):
+    pass
+
+
+def guarded(fn, seconds=20):
+    """Run fn() with a wall-clock limit (SIGALRM); raises CaseTimeout.  Used where a defect may turn into a run-away loop."""
+    import signal
+
+    def handler(signum, frame):
+        raise CaseTimeout(f'no result after {seconds}s')
+
+    old = signal.signal(signal.SIGALRM, handler)
+    signal.setitimer(signal.ITIMER_REAL, seconds)
+    try:
+        return fn()
+    finally:
+        signal.setitimer(signal.ITIMER_REAL, 0)
+        signal.signal(signal.SIGALRM, old)
 
 
 def _run_task(t):
     modname, fname, arg = t
     acc = Acc()
+    acc.budget = int(os.environ.get('VERIF_VIOLATION_BUDGET', '25'))
     try:
         mod = _WORKER_MODS.get(modname)
         if mod is None:
             import importlib
             mod = _WORKER_MODS[modname] = importlib.import_module(modname)
         getattr(mod, fname)(arg, acc)
+    except StopTask as e:
+        acc.caps.append(f'{fname}: {e}')
     except Exception:
         acc.errors.append(f'task {fname}({jdump(arg)[:300]}) crashed:\n{traceback.format_exc()}')
     return acc
